@@ -60,10 +60,20 @@ example : extOf [97, 46, 98, 46, 105, 115, 111] = [46, 105, 115, 111] ∧ extOf 
     dkeyName [71, 46, 105, 115, 111] = [71, 46, 100, 107, 101, 121] := by decide
 
 /-- the watermark test: encrypted watermark ⇒ the 16 bytes after it are the key; decrypted
-    watermark ⇒ masked pass-through; anything else, or a file shorter than 0x1070, ⇒ not 3k3y -/
-theorem short_file_not_3k3y (rd : Nat → Nat → Bytes) (h : (rd maskBegin Gen.fs__3k3yMaskedDataSize).length ≠ Gen.fs__3k3yMaskedDataSize) :
+    watermark ⇒ masked pass-through; anything else ⇒ not 3k3y. A file that ends inside the area is
+    still recognised as long as it holds the watermark (and, for the encrypted form, the key); one that
+    ends before the watermark is complete is not. -/
+theorem short_file_not_3k3y (rd : Nat → Nat → Bytes) (h : (rd maskBegin Gen.fs__3k3yMaskedDataSize).length < 16) :
     test3k3y rd = .no := by
   simp [test3k3y, h]
+
+theorem watermark_in_short_file (rd : Nat → Nat → Bytes)
+    (hl : 16 ≤ (rd maskBegin Gen.fs__3k3yMaskedDataSize).length)
+    (hw : (rd maskBegin Gen.fs__3k3yMaskedDataSize).take 16 = Gen.fs__3k3yDecWatermark.map UInt8.ofNat) :
+    test3k3y rd = .dec := by
+  have hne : Gen.fs__3k3yDecWatermark.map UInt8.ofNat ≠ Gen.fs__3k3yEncWatermark.map UInt8.ofNat := by decide
+  have hl' : ¬ ((rd maskBegin Gen.fs__3k3yMaskedDataSize).length < 16) := by omega
+  simp [test3k3y, hl', hw, hne]
 
 theorem watermarks : Gen.fs__3k3yEncWatermark = [0x44, 0x6E, 0x63, 0x72, 0x79, 0x70, 0x74, 0x65, 0x64, 0x20, 0x33, 0x4B, 0x20, 0x42, 0x4C, 0x44] ∧
     Gen.fs__3k3yDecWatermark = [0x45, 0x6E, 0x63, 0x72, 0x79, 0x70, 0x74, 0x65, 0x64, 0x20, 0x33, 0x4B, 0x20, 0x42, 0x4C, 0x44] ∧
